@@ -3,7 +3,7 @@
    decomposition, c04_b) is Spec/Cleartext.v and never mentions the loader's state machine. *)
 From Coq Require Import List NArith ZArith.
 From Gemato Require Import Py.PyStr Model.Entry Model.Text Spec.Cleartext.
-From Gemato Require Import Proofs.Cleartext Proofs.Reject.
+From Gemato Require Import Proofs.Cleartext Proofs.Reject Proofs.Outside.
 Import ListNotations.
 Open Scope N_scope.
 
@@ -33,6 +33,29 @@ Print Assumptions C04_failure_class.
 Theorem C04_verify_flag_irrelevant : forall text es o, load text true = Ok (es, o) -> load text false = Ok (es, None).
 Proof. exact load_verify_irrel. Qed.
 Print Assumptions C04_verify_flag_irrelevant.
+
+(* "non-blank content before or after the signed block is rejected as unsigned data, misplaced armor as a syntax error", as a
+   relation between a text and its extensions (line lists, any loader state to start from): once the lines read end a complete
+   signed block, the first non-blank line that follows makes the load fail - unsigned data, or the syntax error when the line
+   looks like armor - whatever follows it ... *)
+Theorem C04_content_after_signed_block : forall v s0 ls s l rest,
+  load_lines v s0 ls = Ok s -> ls_state s = SPost -> blank_line l = false ->
+  load_lines v s0 (ls ++ l :: rest) = Err (if is_armor_line l then XSyntax else XUnsigned).
+Proof. exact content_after_signed_block. Qed.
+Print Assumptions C04_content_after_signed_block.
+
+(* ... (a text that loads as signed is in that situation) ... *)
+Theorem C04_signed_load_ends_the_block : forall v text es t, load text v = Ok (es, Some t) ->
+  exists s, load_lines v (mk_ls SData [] []) (py_lines text) = Ok s /\ ls_state s = SPost.
+Proof. exact load_state_post. Qed.
+Print Assumptions C04_signed_load_ends_the_block.
+
+(* ... and a signed block that begins after entries were read is unsigned data *)
+Theorem C04_signed_block_after_content : forall v s0 ls s rest e es,
+  load_lines v s0 ls = Ok s -> ls_state s = SData -> ls_entries s = e :: es ->
+  load_lines v s0 (ls ++ l_begin_signed :: rest) = Err XUnsigned.
+Proof. exact signed_block_after_content. Qed.
+Print Assumptions C04_signed_block_after_content.
 
 (* non-vacuity: a concrete signed message with a dash-escaped entry and an armor header *)
 Example C04_example :
